@@ -3,6 +3,8 @@
 //! `record` drives the real code and writes ndjson events for TLC trace validation.
 mod chunkid;
 mod common;
+mod drd;
+mod icd;
 mod estimate;
 mod latest;
 mod search;
@@ -16,6 +18,7 @@ fn main() {
     let args = Args::parse();
     match args.module.as_str() {
         "sweep" => sweep::run(&args),
+        "drd" => drd::run(&args),
         "estimate" => estimate::run(&args),
         "chunkid" => chunkid::run(&args),
         "search" => search::run(&args),
